@@ -210,7 +210,11 @@ where
             return Ok(CoroutineState::Error(e));
         }
         Self::init_current(self);
-        self.running()?;
+        if let Err(e) = self.running() {
+            // refused: this coroutine must not stay the thread's current one
+            Self::clean_current();
+            return Err(e);
+        }
         #[cfg(unix)]
         Self::setup_sigvtalrm_handler();
         let r = self.raw_resume(arg);
